@@ -1,5 +1,5 @@
 """C09 - encoder is total: returns or raises EncoderError, always terminates."""
-from vmon import env, hooks, scopes
+from vmon import env, hooks, scopes, tablegen
 from vmon.hooks import MON
 from vmon.hostile import hostile_smiles
 from vmon.molgen import random_tree_mol, spell
@@ -47,7 +47,7 @@ def run(ctx):
     try:
         for i in range(n):
             if i % 200 == 0:
-                sf.set_semantic_constraints(rng.choice(tables))
+                tablegen.set_table_hostile(sf, rng.choice(tables), rng, ctx)
             if i % 12 == 10:
                 m = random_tree_mol(rng, rng.choice([3, 8, 20]), p_ring=0.2, ncomp=rng.choice([1, 2]))
                 cls, x = "valid", spell(m, rng)[0]
